@@ -565,12 +565,23 @@ PAYLOAD_CORPUS = [("seedp", 4, 41, b"1.5"), ("seedp", 4, 41, b"[]"), ("seedp", 4
 
 
 def payload_streams(objs):
-    """the unfiltered streams whose payload is PDF/PostScript syntax: content streams, form XObjects, CMaps"""
+    """the streams whose payload is PDF/PostScript syntax (content streams, form XObjects, CMaps), stored plainly or
+    through a single Flate filter: yields (object number, stream, decoded payload, re-encoder)"""
     for n, v in sorted(objs.items()):
-        if isinstance(v, Stream) and not v.d.get("Filter") and "Length1" not in v.d and v.d.get("Subtype") != Name("Image"):
-            d = v.data
-            if d and sum(1 for b in d if 32 <= b < 127 or b in (9, 10, 13)) > 0.9 * len(d):
-                yield n, v
+        if not isinstance(v, Stream) or "Length1" in v.d or v.d.get("Subtype") == Name("Image"):
+            continue
+        f = v.d.get("Filter")
+        if not f:
+            d, enc = v.data, (lambda b: b)
+        elif f in (Name("FlateDecode"), [Name("FlateDecode")]) and not v.d.get("DecodeParms"):
+            try:
+                d, enc = zlib.decompress(v.data), zlib.compress
+            except zlib.error:
+                continue
+        else:
+            continue
+        if d and sum(1 for b in d if 32 <= b < 127 or b in (9, 10, 13)) > 0.9 * len(d):
+            yield n, v, d, enc
 
 
 def payload_cases(ctx, limit):
@@ -591,8 +602,9 @@ def payload_cases(ctx, limit):
             if cls != "ok":
                 ctx.violation("seed", {"seed": sname, "entry": ename}, "ok", (cls, det), "the undamaged seed does not extract")
         jobs = []
-        for n, v in payload_streams(objs):
-            toks = list(TOKEN.finditer(v.data))
+        streams = {n: (v, d, enc) for n, v, d, enc in payload_streams(objs)}
+        for n, (v, d, enc) in streams.items():
+            toks = list(TOKEN.finditer(d))
             for k, m in enumerate(toks):
                 for rep in TOKEN_REPL:
                     if rep != m.group(0):
@@ -604,13 +616,15 @@ def payload_cases(ctx, limit):
             jobs = jobs[:limit]
         jobs = first + [j for j in jobs if j not in first]
         for n, k, rep in jobs:
-            v = objs[n]
-            toks = list(TOKEN.finditer(v.data))
+            if n not in streams:
+                continue
+            v, d, enc = streams[n]
+            toks = list(TOKEN.finditer(d))
             if k >= len(toks):
                 continue
             m = toks[k]
             o2 = dict(objs)
-            o2[n] = Stream(v.d, v.data[:m.start()] + rep + v.data[m.end():])
+            o2[n] = Stream(v.d, enc(d[:m.start()] + rep + d[m.end():]))
             pdf = write_pdf(o2, 1)
             one(ctx, eps, base, sname, {"seed": sname, "object": n, "token": k, "was": m.group(0).decode("latin-1"), "fault": rep.decode("latin-1")}, pdf)
     logging.disable(logging.NOTSET)
